@@ -6,8 +6,8 @@ From Coq Require Import List NArith Permutation Lia.
 From Pika Require Import Base.Conc Model.IndexQueue Proofs.IndexQueueProofs.
 From Pika Require Import Model.DequeSpec Model.Deque Model.DequeWitness Proofs.DequeProofs.
 From Pika Require Import Proofs.DequeSafetyProofs.
-From Pika Require Import Model.DequeLin Proofs.DequeConcDefs Proofs.DequeConcProofs Proofs.DequeLinProofs.
-From Pika Require Proofs.DequeAbaDefs Proofs.DequeAbaLin.
+From Pika Require Import Model.DequeLin Proofs.DequeConcDefs Proofs.DequeLinProofs.
+From Pika Require Proofs.DequeAbaDefs Proofs.DequeAbaLin Proofs.DequeQuiesce Proofs.DequeProgOrder.
 From Pika Require Import Gen.GenBackends Model.Backends Proofs.BackendsProofs.
 Import ListNotations.
 Local Open Scope N_scope.
@@ -83,30 +83,56 @@ Theorem C17_deque_seq_refines_list : forall t k ops n (progs : nat -> list dop),
 Proof. exact deque_seq_refines_list_lemma2. Qed.
 Print Assumptions C17_deque_seq_refines_list.
 
-(* 2.2 The full concurrent statement of C17 for the deque —
-     [deque_exactly_once_all_schedules]: for every pool size, every assignment of programs to
-     threads and every schedule, no value is delivered more often than it was pushed (nothing
-     twice, nothing invented), and once all threads are done and the deque reports empty every
-     pushed value has been delivered —
-   is FALSE of the code as it is (DESIGN.md F15): alloc_node re-initialises the link tags of a
-   recycled node to 0, so a link CAS of a stalled stabilize succeeds against a later
-   incarnation.  Witness: Model/DequeWitness.v (replayed on the real deque by the check). *)
-Theorem C17_deque_aba_refuted : ~ deque_exactly_once_all_schedules.
-Proof. exact deque_aba_refuted_lemma. Qed.
-Print Assumptions C17_deque_aba_refuted.
-
-(* the witness in detail: all four threads finish, the drain gets 100,5,4 and then "empty";
-   4 was pushed once and delivered twice, 6 was pushed and never delivered *)
-Theorem C17_deque_aba_witness :
+(* 2.2 The former F15 witness.  Before the repair (`fix:` commit on deque.hpp) alloc_node and the
+   pushes' private link store restarted the link tags at 0, so a link CAS of a stalled stabilize
+   succeeded against a later incarnation of the node: the schedule of Model/DequeWitness.v (A =
+   push_right 4 stalled before its link CAS, B = pop_right, pop_left, pop_right, push_right 5,
+   push_right 6 re-creating the same two addresses through the LIFO freelist) made the drain
+   return 100,5,4 — 4 twice, 6 lost — and `~ deque_exactly_once_all_schedules` was a theorem.
+   On the repaired model (tags continue across reuse) the same schedule is harmless: A's CAS
+   fails, the drain returns 100,5,6, every value exactly once, the ghost flag [aba] stays false.
+   (The check replays this schedule on the real deque on every run and expects this outcome.) *)
+Example C17_deque_former_witness_immune :
   let c := run dq_tstep aba_full_sched (dq_init aba_k, dq_locals aba_progs) in
   let g := fst c in
   (forall t, (t < 4)%nat -> dq_done (snd c t) = true) /\
-  al (anc g) = 0 /\ dq_results 3 (dlog g) = [Some 100; Some 5; Some 4; None; None] /\
-  count_occ_N 4 (pushed_vals (dlog g)) = 1%nat /\ count_occ_N 4 (popped_vals (dlog g)) = 2%nat /\
-  count_occ_N 6 (pushed_vals (dlog g)) = 1%nat /\ count_occ_N 6 (popped_vals (dlog g)) = 0%nat /\
-  aba g = true.
-Proof. exact aba_witness_facts. Qed.
-Print Assumptions C17_deque_aba_witness.
+  al (anc g) = 0 /\ dq_results 3 (dlog g) = [Some 100; Some 5; Some 6; None; None] /\
+  count_occ_N 4 (pushed_vals (dlog g)) = 1%nat /\ count_occ_N 4 (popped_vals (dlog g)) = 1%nat /\
+  count_occ_N 6 (pushed_vals (dlog g)) = 1%nat /\ count_occ_N 6 (popped_vals (dlog g)) = 1%nat /\
+  aba g = false.
+Proof. exact aba_witness_immune. Qed.
+
+(* a second schedule of the same kind for the other half of the repair (Model/DequeWitness.v,
+   [aba2_progs]): the target link is written by the PRIVATE STORE of push_left in both incarnations of
+   the node; on the real deque it loses 7 and delivers 4 twice as soon as EITHER alloc_node or the
+   pushes' store restarts the tag (checked with each half of the fix reverted); on the repaired
+   model: drain 5,7, delivered = pushed as multisets *)
+Example C17_deque_second_witness_immune :
+  let c := run dq_tstep aba2_full_sched (dq_init aba_k, dq_locals aba2_progs) in
+  let g := fst c in
+  (forall t, (t < 4)%nat -> dq_done (snd c t) = true) /\
+  al (anc g) = 0 /\ dq_results 3 (dlog g) = [Some 5; Some 7; None; None; None] /\
+  dq_results 1 (dlog g) = [Some 4; Some 3; Some 1; None; None; Some 50; Some 51; Some 6; None] /\
+  perm_b (popped_vals (dlog g)) (pushed_vals (dlog g)) = true /\
+  aba g = false.
+Proof. exact aba2_witness_immune. Qed.
+
+(* the mirror images of both schedules (stabilize_left, the LEFT link — word 0 of the chunk, whose
+   pointer bits the freelist overwrites); A pops from the right after its push, because a corrupted
+   left link is invisible to a drain from the left.  On the real deque with the fix reverted: A gets
+   100,5,4 resp. 5,4 and the chain has become cyclic; repaired: 100,5,6 resp. 5,7, deque empty *)
+Example C17_deque_mirror_witnesses_immune :
+  let c1 := run dq_tstep aba3_full_sched (dq_init aba_k, dq_locals aba3_progs) in
+  let c2 := run dq_tstep aba4_full_sched (dq_init aba_k, dq_locals aba4_progs) in
+  (forall t, (t < 4)%nat -> dq_done (snd c1 t) = true) /\ (forall t, (t < 4)%nat -> dq_done (snd c2 t) = true) /\
+  dq_results 0 (dlog (fst c1)) = [None; Some 100; Some 5; Some 6] /\
+  dq_results 0 (dlog (fst c2)) = [None; Some 5; Some 7] /\
+  dq_results 3 (dlog (fst c1)) = [None; None; None; None; None] /\
+  dq_results 3 (dlog (fst c2)) = [None; None; None; None; None] /\
+  perm_b (popped_vals (dlog (fst c1))) (pushed_vals (dlog (fst c1))) = true /\
+  perm_b (popped_vals (dlog (fst c2))) (pushed_vals (dlog (fst c2))) = true /\
+  aba (fst c1) = false /\ aba (fst c2) = false.
+Proof. exact aba_mirror_witnesses_immune. Qed.
 
 (* 2.3 What does hold for every schedule, every thread count, every program. *)
 
@@ -147,7 +173,7 @@ Theorem C17_deque_free_entered_only_by_cas : forall o t g l s a,
 Proof. exact free_entered_only_by_cas. Qed.
 Print Assumptions C17_deque_free_entered_only_by_cas.
 
-(* memory safety, for every schedule / thread count / program, also after an ABA: every pointer
+(* memory safety, for every schedule / thread count / program: every pointer
    in the anchor, in any link of any chunk, in the pool head and in every thread's registers
    (snapshots, prev, prevnext, own node) is nullptr or a chunk the type-stable pool has already
    handed out or pre-allocated (< fresh) — so every dereference of the code goes to a
@@ -160,93 +186,161 @@ Theorem C17_deque_memory_safe : forall k progs sched,
 Proof. exact deque_memory_safe_lemma. Qed.
 Print Assumptions C17_deque_memory_safe.
 
-(* 2.4 The concurrent theorems under the guard [aba = false]: for EVERY pool size, every assignment
-   of programs to threads (any number of threads) and EVERY schedule of the faithful model — nodes
-   are freed and RE-ALLOCATED through the LIFO freelist without restriction — as long as no link CAS
-   of stabilize has succeeded against a node that was freed or re-allocated since its expected
-   value was read (the model's ghost flag [aba], which is monotone; this is exactly the F15 event,
-   and without the guard the statements are false: C17_deque_aba_refuted).  So: the ONLY way the
-   deque of deque.hpp can lose or duplicate an element (under SC, unbounded tags) is F15.
-   These replace the former bounded theorem C17_deque_linearizable_guarded_partial (7 start
-   configurations by exhaustive exploration), which they subsume.
-   [chain_invariant_g] (Proofs/DequeAbaLin.v) is Michael's invariant: the anchor points at the two ends
-   of a chain c that is doubly linked from left to right, except possibly the outward link of the old
-   end node next to a freshly pushed end node while the status is rpush/lpush; the nodes of the
-   chain and the unlinked-but-not-yet-freed nodes [pend] are pairwise distinct, allocated and not
-   freed (odd epoch), not nullptr; pend = the nodes held by threads between pop CAS and FREE; nobody
-   has dereferenced nullptr. *)
-Theorem C17_deque_chain_invariant_guarded : forall k progs sched,
-  aba (fst (dq_run sched k progs)) = false ->
-  exists c pend, DequeAbaLin.chain_invariant_g (fst (dq_run sched k progs)) (snd (dq_run sched k progs)) c pend.
-Proof. exact DequeAbaLin.deque_chain_invariant_guarded_plain. Qed.
-Print Assumptions C17_deque_chain_invariant_guarded.
+(* 2.4 The concurrent theorems, UNGUARDED: for EVERY pool size k, every assignment of programs to
+   threads (any number of threads), and EVERY schedule of the model of the repaired deque.hpp —
+   nodes are freed and RE-ALLOCATED through the LIFO freelist without restriction, helping, all
+   CAS races, stale reads of freed / recycled nodes included.
+   Side conditions (stated, not proved away): sequentially consistent interleaving at the
+   granularity of the model's atomic steps; tags are unbounded N — the code has 16-bit tags, so the
+   theorems cover executions in which no link tag and no anchor tag wraps around (2^16 increments)
+   within the window in which one thread holds a snapshot of it; allocation never fails.
+   What the repair provides and the proof uses (Proofs/DequeAbaStab.v, hypothesis [Htag] of
+   [J_frame]): the tag of a link never decreases over the whole lifetime of its ADDRESS, across
+   deallocate / allocate / alloc_node / the pushes' private store.  Hence the register invariant of
+   a thread standing before its link CAS — "(snapshot current and link = expected) or
+   tag(expected) < tag(link)" — no longer needs the premise "the node has not been recycled", and a
+   successful link CAS is always the legitimate repair of the one broken link.
+   [chain_invariant_e] (Proofs/DequeAbaLin.v) is Michael's invariant: the anchor points at the two
+   ends of a chain c that is doubly linked from left to right, except possibly the outward link of
+   the old end node next to a freshly pushed end node while the status is rpush/lpush; the nodes of
+   the chain and the unlinked-but-not-yet-freed nodes [pend] are pairwise distinct, allocated and
+   not freed (odd epoch), not nullptr; pend = the nodes held by threads between pop CAS and FREE;
+   nobody has dereferenced nullptr. *)
+
+(* the F15 event never happens: no link CAS of stabilize ever succeeds against a node that was
+   freed or re-allocated since its expected value was read (the model's ghost flag [aba], the guard
+   of the former C17_deque_*_guarded theorems, is false in every reachable state) *)
+Theorem C17_deque_aba_never : forall k progs sched, aba (fst (dq_run sched k progs)) = false.
+Proof. exact DequeAbaLin.deque_aba_never. Qed.
+Print Assumptions C17_deque_aba_never.
+
+Theorem C17_deque_chain_invariant : forall k progs sched,
+  exists c pend, DequeAbaLin.chain_invariant_e (fst (dq_run sched k progs)) (snd (dq_run sched k progs)) c pend.
+Proof. exact DequeAbaLin.deque_chain_invariant_lemma. Qed.
+Print Assumptions C17_deque_chain_invariant.
 
 (* conservation: pushed = popped + chain + in-flight (multisets); nothing is delivered more often
    than it was pushed; with no pop in flight pushed = popped + chain; stable => the chain's values are
-   what the walk from the left end reads.  This is (more than) the statement the refuted full claim
-   [deque_exactly_once_all_schedules] makes, now under the guard. *)
-Theorem C17_deque_conservation_guarded : forall k progs sched,
+   what the walk from the left end reads.  (Stated on the plain [dq_run], no instrumentation.) *)
+Theorem C17_deque_conservation : forall k progs sched,
   let g := fst (dq_run sched k progs) in let ls := snd (dq_run sched k progs) in
-  aba g = false ->
-  exists c pend, DequeAbaLin.chain_invariant_g g ls c pend /\
+  exists c pend, DequeAbaLin.chain_invariant_e g ls c pend /\
     Permutation (pushed_vals (dlog g)) (popped_vals (dlog g) ++ vals g c ++ vals g pend) /\
     (forall v, (count_occ_N v (popped_vals (dlog g)) <= count_occ_N v (pushed_vals (dlog g)))%nat) /\
     ((forall t s a, dpc (ls t) <> QFree s a) ->
      Permutation (pushed_vals (dlog g)) (popped_vals (dlog g) ++ vals g c)) /\
     (ast (anc g) = Stable -> dq_contents (length c) g = vals g c).
-Proof. exact DequeAbaLin.deque_conservation_guarded_lemma. Qed.
-Print Assumptions C17_deque_conservation_guarded.
+Proof. exact DequeAbaLin.deque_conservation_lemma. Qed.
+Print Assumptions C17_deque_conservation.
 
-(* in particular the body of the refuted full claim [deque_exactly_once_all_schedules] (2.2) holds
-   for every run in which F15 does not strike: nothing is delivered more often than it was pushed,
-   and once all threads are done and the deque reports empty every pushed value has been delivered *)
-Theorem C17_deque_exactly_once_guarded : forall k progs sched,
+(* the full statement of C17 for the deque (it was refuted by the F15 witness before the repair):
+   for every pool size, programs and schedule no value is delivered more often than it was pushed
+   (nothing twice, nothing invented), and once all threads are done and the deque reports empty
+   every pushed value has been delivered *)
+Theorem C17_deque_exactly_once : forall k progs sched,
   let c := run dq_tstep sched (dq_init k, dq_locals progs) in
   let lg := dlog (fst c) in
-  aba (fst c) = false ->
   (forall v, count_occ_N v (popped_vals lg) <= count_occ_N v (pushed_vals lg))%nat /\
   (al (anc (fst c)) = 0 -> (forall t, dq_done (snd c t) = true) ->
    forall v, count_occ_N v (popped_vals lg) = count_occ_N v (pushed_vals lg)).
-Proof. exact DequeAbaLin.deque_exactly_once_guarded_lemma. Qed.
-Print Assumptions C17_deque_exactly_once_guarded.
+Proof. exact DequeAbaLin.deque_exactly_once_lemma. Qed.
+Print Assumptions C17_deque_exactly_once.
+
+(* the instrumentation of Model/DequeLin.v (linearization log [glin], flag [greuse]) erases: shared
+   state and locals of an instrumented run are those of the plain run *)
+Theorem C17_deque_instrumentation_erases : forall k progs sched,
+  fst (fst (dq_run_i sched k progs)) = fst (dq_run sched k progs) /\
+  snd (dq_run_i sched k progs) = snd (dq_run sched k progs).
+Proof. exact dq_run_i_erase. Qed.
+Print Assumptions C17_deque_instrumentation_erases.
 
 (* linearizability against the two-ended list (linearization points: successful anchor CAS of
    push / pop, anchor load of a pop that sees a null end), recorded by the ghost instrumentation
-   [dq_tstep_i] of Model/DequeLin.v, which leaves the model's step untouched
-   (C17_deque_instrumentation_erases below): the linearization log is a legal history of the list
-   from the empty list ending in the chain's values, and agrees per thread with what was reported,
-   up to the one pop per thread that has done its CAS but not yet reported. *)
-Theorem C17_deque_linearizable_guarded : forall k progs sched,
+   [dq_tstep_i], which leaves the model's step untouched: the linearization log, read oldest first,
+   is a legal history of the list from the empty list ending in the chain's values — every result
+   in it is the result the list gives —, and agrees per thread with what was reported ([dlog]), up
+   to the one pop per thread that has done its CAS but not yet reported.  (Each linearization
+   point is a step of the operation itself, so real-time order is respected by construction.) *)
+Theorem C17_deque_linearizable : forall k progs sched,
   let ci := dq_run_i sched k progs in
   let g := fst (dq_run sched k progs) in let ls := snd (dq_run sched k progs) in
   let lin := glin (snd (fst ci)) in
-  aba g = false ->
-  exists c pend, DequeAbaLin.chain_invariant_g g ls c pend /\
+  exists c pend, DequeAbaLin.chain_invariant_e g ls c pend /\
     spec_run (log_ops lin) [] = (log_res lin, vals g c) /\
     (forall t, of_tid t lin = pending t g (ls t) ++ of_tid t (dlog g)).
-Proof. exact DequeAbaLin.deque_linearizable_guarded_lemma. Qed.
-Print Assumptions C17_deque_linearizable_guarded.
+Proof. exact DequeAbaLin.deque_linearizable_lemma. Qed.
+Print Assumptions C17_deque_linearizable.
 
-(* the forward simulation behind it: any step of any thread that does not raise [aba] preserves the
-   invariant [DequeAbaDefs.Core] and is labelled by what it does to the abstract list ([Trans]) *)
-Theorem C17_deque_step_refines_list_guarded : forall t g (ls : locals dq_local) c pend,
-  DequeAbaDefs.Core g ls c pend -> aba (fst (dq_tstep tt t g (ls t))) = false ->
+(* the forward simulation behind it: from any state satisfying [DequeAbaDefs.Core] (chain invariant
+   + register invariant of every thread) ANY step of ANY thread preserves it and is labelled
+   ([Trans], Proofs/DequeConcDefs.v) by what it does to the abstract list: LDoPush s v (successful
+   push CAS), LPopOk s v (successful pop CAS), LPopEmpty s, LFree (value reported; list unchanged),
+   LTau (loads, checks, failed CASes, allocation, the link CAS and the anchor CAS of stabilize) *)
+Theorem C17_deque_step_refines_list : forall t g (ls : locals dq_local) c pend,
+  DequeAbaDefs.Core g ls c pend ->
   let g' := fst (dq_tstep tt t g (ls t)) in let l' := snd (dq_tstep tt t g (ls t)) in
   exists c' pend' lab, DequeAbaDefs.Core g' (upd ls t l') c' pend' /\ Trans t g (ls t) c pend lab g' l' c' pend'.
-Proof. exact DequeAbaLin.deque_step_refines_guarded_lemma. Qed.
-Print Assumptions C17_deque_step_refines_list_guarded.
+Proof. exact DequeAbaLin.deque_step_refines_lemma. Qed.
+Print Assumptions C17_deque_step_refines_list.
 
 (* a pop reports "empty" only if the abstract list is empty at its anchor load *)
-Theorem C17_deque_empty_pop_guarded : forall t g (ls : locals dq_local) c pend s,
-  DequeAbaDefs.Core g ls c pend -> aba (fst (dq_tstep tt t g (ls t))) = false ->
+Theorem C17_deque_empty_pop : forall t g (ls : locals dq_local) c pend s,
+  DequeAbaDefs.Core g ls c pend ->
   dlog (fst (dq_tstep tt t g (ls t))) = ev t (Pop s) None :: dlog g ->
   c = [] /\ al (anc g) = 0 /\ ar (anc g) = 0.
-Proof. exact DequeAbaLin.deque_empty_pop_guarded_lemma. Qed.
-Print Assumptions C17_deque_empty_pop_guarded.
+Proof. exact DequeAbaLin.deque_empty_pop_lemma. Qed.
+Print Assumptions C17_deque_empty_pop.
+
+(* quiescence: whenever all threads are done (every operation of every program has returned) the
+   anchor is STABLE — although a pusher may return while the status is still rpush/lpush (its link
+   CAS fails when a helper was faster), some thread inside stabilize with a current snapshot is then
+   still on its way to the anchor CAS ([DequeQuiesce.Resp]) —, nothing is in flight, and the values
+   that a walk from the left end along the right links reads ([dq_contents]) are exactly the final
+   list of the linearization history; pushed = popped + contents as multisets; the linearization
+   agrees per thread with what the threads reported *)
+Theorem C17_deque_quiescent : forall k progs sched,
+  let ci := dq_run_i sched k progs in
+  let g := fst (dq_run sched k progs) in let ls := snd (dq_run sched k progs) in
+  let lin := glin (snd (fst ci)) in
+  (forall t, dq_done (ls t) = true) ->
+  ast (anc g) = Stable /\
+  exists n, spec_run (log_ops lin) [] = (log_res lin, dq_contents n g) /\
+    Permutation (pushed_vals (dlog g)) (popped_vals (dlog g) ++ dq_contents n g) /\
+    (forall t, of_tid t lin = of_tid t (dlog g)).
+Proof. exact DequeQuiesce.deque_quiescent_lemma. Qed.
+Print Assumptions C17_deque_quiescent.
+
+(* the invariant behind it is preserved by every step of every thread: if the status is not stable
+   some thread stands in stabilize with a current snapshot and (at the link CAS) a current expected value *)
+Theorem C17_deque_unstable_has_stabilizer : forall t g (ls : locals dq_local) c pend,
+  DequeAbaDefs.Core g ls c pend -> DequeQuiesce.Resp g ls ->
+  DequeQuiesce.Resp (fst (dq_tstep tt t g (ls t))) (upd ls t (snd (dq_tstep tt t g (ls t)))).
+Proof. exact DequeQuiesce.resp_step. Qed.
+Print Assumptions C17_deque_unstable_has_stabilizer.
+
+(* program order: in every reachable state, for every thread, the operations it has reported
+   (its entries of [dlog], oldest first) followed by what it still has to do ([remaining]: its to-do
+   list, minus the head while it stabilizes after its own already reported push) are exactly its
+   program — the per-thread logs are the programs, in order, nothing skipped or repeated *)
+Theorem C17_deque_program_order : forall k progs sched t,
+  let g := fst (dq_run sched k progs) in let ls := snd (dq_run sched k progs) in
+  log_ops (of_tid t (dlog g)) ++ DequeProgOrder.remaining (ls t) = progs t.
+Proof. exact DequeProgOrder.deque_program_order. Qed.
+Print Assumptions C17_deque_program_order.
+
+(* hence at quiescence the linearization restricted to a thread is that thread's program: the
+   history of C17_deque_quiescent is a linearization OF THE PROGRAMS *)
+Theorem C17_deque_quiescent_program_order : forall k progs sched,
+  let ci := dq_run_i sched k progs in
+  let ls := snd (dq_run sched k progs) in
+  let lin := glin (snd (fst ci)) in
+  (forall t, dq_done (ls t) = true) -> forall t, log_ops (of_tid t lin) = progs t.
+Proof. exact DequeProgOrder.deque_quiescent_program_order. Qed.
+Print Assumptions C17_deque_quiescent_program_order.
 
 (* non-vacuity: three threads, ten operations on both ends, pool of one chunk: chunks ARE re-allocated
-   ([greuse] = true, three chunks serve six pushes) and [aba] stays false *)
-Example C17_deque_guarded_example :
+   ([greuse] = true, three chunks serve six pushes) *)
+Example C17_deque_reuse_example :
   let ci := dq_run_i (rr_sched 40) 1 rr_progs in
   aba (fst (fst ci)) = false /\ greuse (snd (fst ci)) = true /\ fresh (fst (fst ci)) = 4 /\
   map (fun e => (dv_tid e, dv_op e, dv_res e)) (rev (glin (snd (fst ci)))) =
@@ -260,114 +354,12 @@ Proof.
   intros t H. do 3 (destruct t as [|t]; [reflexivity|]). exfalso. lia.
 Qed.
 
-(* 2.5 The same theorems under the stronger NO-REUSE guard (an independent development,
-   Proofs/DequeConc*.v + DequeLinProofs.v, kept because the guard does not mention the link CAS at all
-   and the invariant is simpler: "allocated and not freed" is epoch = 1): for EVERY pool size, every assignment of
-   programs to threads (any number of threads) and EVERY schedule of the faithful model in which
-   the pool never hands out a chunk that it has handed out before.
-   The guard is the ghost flag [greuse] of the instrumented step [dq_tstep_i] (Model/DequeLin.v):
-   the instrumentation runs [dq_tstep] unchanged and records (a) whether pool_.allocate() ever
-   returned a chunk whose epoch was not 0 and (b) the linearization log [glin] — one event per
-   linearization point: the successful anchor CAS of a push, the successful anchor CAS of a pop
-   (with the data of the node it unlinks), the anchor load of a pop that sees a null end pointer.
-   (Because the freelist is LIFO, a guarded run is one in which no push starts after the first
-   FREE; pushes, pops, helping and all CAS races before that point are unrestricted.  Without the
-   guard the statement is false: C17_deque_aba_refuted.) *)
-
-(* the instrumentation erases: shared state and locals are those of the plain run *)
-Theorem C17_deque_instrumentation_erases : forall k progs sched,
-  fst (fst (dq_run_i sched k progs)) = fst (dq_run sched k progs) /\
-  snd (dq_run_i sched k progs) = snd (dq_run sched k progs).
-Proof. exact dq_run_i_erase. Qed.
-Print Assumptions C17_deque_instrumentation_erases.
-
-(* the no-reuse guard is a special case of the guard of 2.4: a run in which the pool never
-   re-allocates a chunk never raises [aba] (a link CAS succeeds only while its snapshot is current,
-   and then the epoch of its target is the one read before) *)
-Theorem C17_deque_noreuse_implies_aba_free : forall k progs sched,
-  greuse (snd (fst (dq_run_i sched k progs))) = false -> aba (fst (dq_run sched k progs)) = false.
-Proof. exact noreuse_implies_aba_free. Qed.
-Print Assumptions C17_deque_noreuse_implies_aba_free.
-
-(* (1) Michael's chain invariant ([chain_invariant], Proofs/DequeLinProofs.v): the anchor points at
-   the two ends of a chain c that is doubly linked from left to right, except possibly the outward
-   link of the old end node next to a freshly pushed end node while the status is rpush/lpush; all
-   nodes of the chain and all unlinked-but-not-yet-freed nodes are distinct, allocated, not freed,
-   not nullptr; nobody has dereferenced nullptr. *)
-Theorem C17_deque_chain_invariant_noreuse : forall k progs sched,
-  let ci := dq_run_i sched k progs in
-  fst (fst ci) = fst (dq_run sched k progs) /\ snd ci = snd (dq_run sched k progs) /\
-  (greuse (snd (fst ci)) = false ->
-   exists c pend, chain_invariant (fst (dq_run sched k progs)) (snd (dq_run sched k progs)) c pend).
-Proof. exact deque_chain_invariant_noreuse_lemma. Qed.
-Print Assumptions C17_deque_chain_invariant_noreuse.
-
-(* (2) conservation: pushed = popped + chain + (nodes unlinked by a pop CAS whose value has not
-   been read yet), as multisets; hence nothing is delivered more often than it was pushed (no
-   duplicate, nothing invented); when no thread stands between its pop CAS and FREE (e.g. all
-   threads are done) pushed = popped + chain, nothing is lost; and when the status is stable the
-   chain's values are what a walk from the left end along the right links reads. *)
-Theorem C17_deque_conservation_noreuse : forall k progs sched,
-  let ci := dq_run_i sched k progs in
-  let g := fst (dq_run sched k progs) in let ls := snd (dq_run sched k progs) in
-  greuse (snd (fst ci)) = false ->
-  exists c pend, chain_invariant g ls c pend /\
-    Permutation (pushed_vals (dlog g)) (popped_vals (dlog g) ++ vals g c ++ vals g pend) /\
-    (forall v, (count_occ_N v (popped_vals (dlog g)) <= count_occ_N v (pushed_vals (dlog g)))%nat) /\
-    ((forall t s a, dpc (ls t) <> QFree s a) ->
-     Permutation (pushed_vals (dlog g)) (popped_vals (dlog g) ++ vals g c)) /\
-    (ast (anc g) = Stable -> dq_contents (length c) g = vals g c).
-Proof. exact deque_conservation_noreuse_lemma. Qed.
-Print Assumptions C17_deque_conservation_noreuse.
-
-(* (3) linearizability against the two-ended list with the successful anchor CASes (and the
-   empty-seeing anchor loads) as linearization points: the linearization log, read oldest first,
-   is a legal sequential history of the list specification starting from the empty list — every
-   result in it is the result the list gives — and it ends in the abstract contents (the values
-   of the chain); and it agrees, thread by thread, with what the threads have reported ([dlog]),
-   up to the one pop per thread that has been linearized by its CAS but has not reported yet.
-   (Each linearization point is a step of the operation itself, so real-time order is respected
-   by construction; pushes report at their linearization point.) *)
-Theorem C17_deque_linearizable_noreuse : forall k progs sched,
-  let ci := dq_run_i sched k progs in
-  let g := fst (dq_run sched k progs) in let ls := snd (dq_run sched k progs) in
-  let lin := glin (snd (fst ci)) in
-  greuse (snd (fst ci)) = false ->
-  exists c pend, chain_invariant g ls c pend /\
-    spec_run (log_ops lin) [] = (log_res lin, vals g c) /\
-    (forall t, of_tid t lin = pending t g (ls t) ++ of_tid t (dlog g)).
-Proof. exact deque_linearizable_noreuse_lemma. Qed.
-Print Assumptions C17_deque_linearizable_noreuse.
-
-(* (3') the same as a step-by-step simulation: from any state satisfying the invariant [Core]
-   (chain invariant + register invariants of all threads), any step of any thread that does not
-   re-allocate a chunk preserves it and is labelled ([Trans], Proofs/DequeConcDefs.v) by what it does
-   to the abstract list: LDoPush s v (successful push CAS: v is added at end s), LPopOk s v
-   (successful pop CAS: v is removed from end s), LPopEmpty s (the list is empty), LFree (the value
-   is reported; list unchanged), LTau (everything else — loads, checks, failed CASes, the link
-   CAS and the anchor CAS of stabilize: list unchanged). *)
-Theorem C17_deque_step_refines_list_noreuse : forall t g (ls : locals dq_local) c pend,
-  Core g ls c pend -> reuse_event g (ls t) = false ->
-  let g' := fst (dq_tstep tt t g (ls t)) in let l' := snd (dq_tstep tt t g (ls t)) in
-  exists c' pend' lab, Core g' (upd ls t l') c' pend' /\ Trans t g (ls t) c pend lab g' l' c' pend'.
-Proof. exact deque_step_refines_noreuse_lemma. Qed.
-Print Assumptions C17_deque_step_refines_list_noreuse.
-
-(* (4) a pop reports "empty" only if the abstract list is empty at its anchor load *)
-Theorem C17_deque_empty_pop_noreuse : forall t g (ls : locals dq_local) c pend s,
-  Core g ls c pend -> reuse_event g (ls t) = false ->
-  dlog (fst (dq_tstep tt t g (ls t))) = ev t (Pop s) None :: dlog g ->
-  c = [] /\ al (anc g) = 0 /\ ar (anc g) = 0.
-Proof. exact deque_empty_pop_noreuse_lemma. Qed.
-Print Assumptions C17_deque_empty_pop_noreuse.
-
-(* non-vacuity of the guard: a concurrent run of four threads (Model/DequeLin.nr_sched: helping,
-   failed link CAS, failed anchor CASes, retries) satisfies it; the linearization order differs
-   from the reporting order (thread 2's pop is linearized before the push of 3 and thread 3's
-   pop, but reports last); after 37 steps thread 2 stands between its CAS and FREE *)
-Example C17_deque_noreuse_example :
+(* non-vacuity: a concurrent run of four threads (Model/DequeLin.nr_sched: helping, failed link
+   CAS, failed anchor CASes, retries); the linearization order differs from the reporting order
+   (thread 2's pop is linearized before the push of 3 and thread 3's pop, but reports last); after
+   37 steps thread 2 stands between its CAS and FREE *)
+Example C17_deque_helping_example :
   let ci := dq_run_i nr_sched 4 nr_progs in
-  greuse (snd (fst ci)) = false /\
   map (fun e => (dv_tid e, dv_op e, dv_res e)) (rev (glin (snd (fst ci)))) =
     [(0%nat, Push SR 1, None); (0%nat, Push SR 2, None); (2%nat, Pop SL, Some 1);
      (1%nat, Push SL 3, None); (3%nat, Pop SR, Some 2)] /\
@@ -376,7 +368,7 @@ Example C17_deque_noreuse_example :
   dq_contents 1 (fst (fst ci)) = [3] /\ ast (anc (fst (fst ci))) = Stable /\
   (forall t, (t < 4)%nat -> dq_done (snd ci t) = true) /\
   let cm := dq_run_i (firstn 37 nr_sched) 4 nr_progs in
-  greuse (snd (fst cm)) = false /\ dpc (snd cm 2%nat) = QFree SL 1 /\
+  dpc (snd cm 2%nat) = QFree SL 1 /\
   popped_vals (dlog (fst (fst cm))) = [] /\ length (glin (snd (fst cm))) = 3%nat.
 Proof.
   vm_compute. repeat split; try reflexivity.
